@@ -655,7 +655,11 @@ class PrecipitateBase(GenericModel):
             # Compute driving force and precipitate composition (which helps with growth rate and impingement in multicomponent systems)
             # If driving force is negative, then we can skip the rest of the calculations (no nucleation barrier and no nucleation rate)
             aspectRatio = precParams.shapeFactor.aspectRatio(self.pData.Rcrit[self.pData.n, p])
-            self._chemDGTemp[p], volDG, self._precBetaTemp[p] = nucfuncs.volumetricDrivingForce(self.therm, xComp, T, precParams, aspectRatio, self.removeCache)
+            chemDG, volDG, precBeta = nucfuncs.volumetricDrivingForce(self.therm, xComp, T, precParams, aspectRatio, self.removeCache)
+            #If the driving force could not be computed (equilibrium failed), keep the values of the previous step for this phase
+            if not np.isfinite(volDG):
+                continue
+            self._chemDGTemp[p], self._precBetaTemp[p] = chemDG, precBeta
             Y.drivingForce[0,p] = volDG
             if volDG < 0:
                 continue
